@@ -77,7 +77,7 @@ PROPS = {
     },
     "C05": {
         "modules": ["PgBifrost.Props.C05"],
-        "components": ["batcher", "crc", "pipeline", "kinesis"],
+        "components": ["batcher", "crc", "pipeline", "kinesis", "batcherload"],
         "required_theorems": ["PgBifrost.Props.C05.kinesis_calls_keep_batch_order", "PgBifrost.Props.C05.in_batch_order", "PgBifrost.Props.C05.partition_routing_fixed",
                               "PgBifrost.Props.C05.per_key_submission_order", "PgBifrost.Props.C05.single_worker_total_order"],
         "partial": "proved up to the worker's input channel (order of batches handed to worker w); that a worker is sequential and its "
@@ -173,7 +173,9 @@ PROPS = {
         "required_theorems": ["PgBifrost.Props.C15.kinesis_batch_limits", "PgBifrost.Props.C15.kinesis_dispatched_limits",
                               "PgBifrost.Props.C15.generic_dispatched_limits", "PgBifrost.Props.C15.kafka_dispatched_limits",
                               "PgBifrost.Props.C15.cant_fit_not_lost", "PgBifrost.Props.C15.too_big_counted",
-                              "PgBifrost.Props.C15.limits_are_the_documented_ones", "PgBifrost.Props.C15.reaction_per_error_class"],
+                              "PgBifrost.Props.C15.limits_are_the_documented_ones", "PgBifrost.Props.C15.reaction_per_error_class",
+                              "PgBifrost.Props.C15.kinesis_add_as_in_source", "PgBifrost.Props.C15.generic_add_as_in_source",
+                              "PgBifrost.Props.C15.kafka_add_as_in_source"],
         "assumptions": ["Kinesis record + partition key fits an empty batch (|key| <= 4 MiB)"],
     },
     "C16": {
@@ -209,14 +211,16 @@ PROPS = {
     },
     "C18": {
         "modules": ["PgBifrost.Props.C18"],
-        "components": ["client", "clientload"],
+        "components": ["client", "clientload", "connmgr"],
         "required_theorems": ["PgBifrost.Props.C18.keepalive_reply_before_next_read",
                               "PgBifrost.Props.C18.status_gap_bounded"],
         "partial": "durations are proved in a logical-time timer sub-model (firing visible when due, handling takes no "
                    "time, ReceiveMessage returns within T); real timer/scheduler latency is measured by the harness "
                    "(max gap in the distribution), not proved. The session's very first keepalive is not answered even "
                    "if it requests a reply (client.go:243-270); the property is stated for the loop.",
-        "assumptions": ["ReceiveMessage returns within its context timeout T"],
+        "assumptions": ["ReceiveMessage returns within its context timeout T",
+                        "a status update the client sends is on the wire without a further read (true of the connection wrapper since the "
+                        "fix of F10; checked by the connmgr component over TCP against the fake PostgreSQL server)"],
     },
     "C19": {
         "modules": ["PgBifrost.Props.C19"],
